@@ -1,6 +1,480 @@
-//! Seeded random generators for instance-level events.
+//! Seeded random generators for instance-level events (direction B).
+use crate::gen::{q, FnGen};
 use crate::num::Rng;
-use serde_json::Value;
-pub fn generate(_group: &str, _r: &mut Rng, _n: usize) -> Vec<Value> {
-    Vec::new()
+use serde_json::{json, Value};
+
+fn ev(name: &str, case: String, inp: Value) -> Value {
+    json!({"ev": name, "case": case, "src": "drive", "in": inp})
+}
+fn meta(r: &mut Rng, tag: &str) -> (Value, Value, Value, Value) {
+    let name = if r.chance(1, 2) { json!([format!("{tag}{}", r.below(5))]) } else { json!([]) };
+    let subs: Vec<i64> = (0..r.below(3)).map(|_| r.range(-2, 9)).collect();
+    let params = if r.chance(1, 4) { json!([["k", format!("v{}", r.below(3))]]) } else { json!([]) };
+    let desc = if r.chance(1, 5) { json!(["d"]) } else { json!([]) };
+    (name, json!(subs), params, desc)
+}
+pub struct VarSpec {
+    pub id: u64,
+    pub kind: &'static str,
+    pub lo: Option<i64>, // None = -inf (when bound present)
+    pub hi: Option<i64>,
+    pub has_bound: bool,
+}
+impl VarSpec {
+    pub fn eff(&self) -> (Option<i64>, Option<i64>) {
+        if self.has_bound {
+            (self.lo, self.hi)
+        } else if self.kind == "binary" {
+            (Some(0), Some(1))
+        } else {
+            (None, None)
+        }
+    }
+    pub fn to_json(&self, r: &mut Rng) -> Value {
+        let (name, subs, params, desc) = meta(r, "x");
+        let bound = if self.has_bound {
+            json!([{"lo": self.lo.map(|v| json!([v, 1])).unwrap_or(json!([-1, 0])),
+                    "hi": self.hi.map(|v| json!([v, 1])).unwrap_or(json!([1, 0]))}])
+        } else {
+            json!([])
+        };
+        json!({"id": self.id, "kind": self.kind, "bound": bound, "fixed": [], "name": name, "subs": subs, "params": params, "desc": desc})
+    }
+    /// an in-bound value (halves for continuous, integers otherwise)
+    pub fn value(&self, r: &mut Rng) -> Value {
+        let (lo, hi) = self.eff();
+        let l = lo.unwrap_or(-3).max(-3);
+        let h = hi.unwrap_or(3).min(l + 6).max(l);
+        let l = l.min(h);
+        if self.kind == "continuous" && h > l && r.chance(1, 2) {
+            q(r.range(2 * l, 2 * h), 2)
+        } else {
+            q(r.range(l, h), 1)
+        }
+    }
+}
+pub fn rand_vars(r: &mut Rng, ids: &[u64], int_only: bool, boxed: bool) -> Vec<VarSpec> {
+    ids.iter()
+        .map(|&id| {
+            let kind = if int_only { *r.pick(&["binary", "integer", "integer"]) } else { *r.pick(&["binary", "integer", "continuous", "continuous"]) };
+            let shape = if boxed { 1 } else { r.below(6) };
+            let (has_bound, lo, hi) = match (kind, shape) {
+                ("binary", 0) => (false, None, None),
+                ("binary", _) => (true, Some(0), Some(1)),
+                (_, 0) => (false, None, None),
+                (_, 1) | (_, 2) => {
+                    let l = r.range(-2, 1);
+                    (true, Some(l), Some(l + r.range(0, 3)))
+                }
+                (_, 3) => (true, Some(r.range(-2, 1)), None),
+                (_, 4) => (true, None, Some(r.range(0, 3))),
+                _ => (true, None, None),
+            };
+            VarSpec { id, kind, lo, hi, has_bound }
+        })
+        .collect()
+}
+pub struct Inst {
+    pub vars: Vec<VarSpec>,
+    pub json: Value,
+    pub used: Vec<u64>,
+    pub active: Vec<u64>,
+    pub removed: Vec<u64>,
+    pub deps: Vec<u64>,
+}
+pub struct InstOpts {
+    pub max_deg: u64,
+    pub int_only: bool,
+    pub boxed: bool,
+    pub with_deps: bool,
+    pub with_removed: bool,
+    pub max_cons: u64,
+    pub coef_den: i64,
+}
+pub const DEFAULT: InstOpts = InstOpts { max_deg: 2, int_only: false, boxed: false, with_deps: true, with_removed: true, max_cons: 4, coef_den: 2 };
+
+pub fn rand_instance(r: &mut Rng, o: &InstOpts) -> Inst {
+    let pool = [1u64, 2, 3, 4, 6, 9];
+    let nv = 2 + r.below(3) as usize;
+    let mut ids: Vec<u64> = pool.to_vec();
+    r.shuffle(&mut ids);
+    let mut used: Vec<u64> = ids[..nv].to_vec();
+    used.sort();
+    let irrelevant: Vec<u64> = if r.chance(1, 2) { vec![ids[nv]] } else { vec![] };
+    let dep_ids: Vec<u64> = if o.with_deps && r.chance(1, 3) { ids[nv + 1..(nv + 1 + 1 + r.below(2) as usize).min(ids.len())].to_vec() } else { vec![] };
+    let mut all: Vec<u64> = used.iter().chain(irrelevant.iter()).chain(dep_ids.iter()).cloned().collect();
+    all.sort();
+    let vars = rand_vars(r, &all, o.int_only, o.boxed);
+    let g = FnGen { ids: used.clone(), coef_den: o.coef_den, coef_max: 3 * o.coef_den, max_terms: 4, max_deg: o.max_deg };
+    let objective = if r.chance(1, 12) { json!([]) } else { json!([g.function(r, false)]) };
+    let cpool = [10u64, 11, 12, 20, 35];
+    let nc = r.below(o.max_cons + 1) as usize;
+    let mut cids: Vec<u64> = cpool.to_vec();
+    r.shuffle(&mut cids);
+    let mut active = vec![];
+    let mut removed = vec![];
+    let mut cons_json = vec![];
+    let mut removed_json = vec![];
+    for &cid in &cids[..nc] {
+        let (name, subs, params, desc) = meta(r, "c");
+        let f = if r.chance(1, 12) { json!([]) } else { json!([g.function(r, false)]) };
+        let c = json!({"id": cid, "eq": if r.chance(1, 2) { "eq" } else { "le" }, "f": f, "name": name, "subs": subs, "params": params, "desc": desc});
+        if o.with_removed && r.chance(1, 3) {
+            removed.push(cid);
+            let rp = if r.chance(1, 2) { json!([["a", "1"], ["b", "x"]]) } else { json!([]) };
+            removed_json.push(json!({"c": [c], "reason": format!("reason{}", r.below(3)), "rparams": rp}));
+        } else {
+            active.push(cid);
+            cons_json.push(c);
+        }
+    }
+    // dependencies: dependent d_k defined over used variables and earlier dependents (a chain), acyclic
+    let mut deps_json = vec![];
+    let mut avail = used.clone();
+    for &d in &dep_ids {
+        let gd = FnGen { ids: avail.clone(), coef_den: 2, coef_max: 4, max_terms: 2, max_deg: 2 };
+        deps_json.push(json!([d, gd.function(r, false)]));
+        avail.push(d);
+    }
+    r.shuffle(&mut deps_json);
+    let mut vj: Vec<Value> = vars.iter().map(|v| v.to_json(r)).collect();
+    if r.chance(1, 3) {
+        r.shuffle(&mut vj);
+    }
+    let json = json!({"sense": if r.chance(1, 2) { "min" } else { "max" }, "vars": vj, "objective": objective,
+        "constraints": cons_json, "removed": removed_json, "deps": deps_json, "params": [], "hints": [], "description": [], "parameters": []});
+    Inst { vars, json, used, active, removed, deps: dep_ids }
+}
+impl Inst {
+    /// in-bound state over all non-dependent variables (optionally omitting irrelevant ones)
+    pub fn state(&self, r: &mut Rng, omit_irrelevant: bool) -> Vec<(u64, Value)> {
+        self.vars
+            .iter()
+            .filter(|v| !self.deps.contains(&v.id))
+            .filter(|v| !(omit_irrelevant && !self.used.contains(&v.id)))
+            .map(|v| (v.id, v.value(r)))
+            .collect()
+    }
+}
+fn st_json(s: &[(u64, Value)]) -> Value {
+    Value::Array(s.iter().map(|(i, v)| json!([i, v])).collect())
+}
+
+pub fn generate(group: &str, r: &mut Rng, n: usize) -> Vec<Value> {
+    let mut out = Vec::new();
+    match group {
+        "evaluate" => {
+            for k in 0..n {
+                let inst = rand_instance(r, &DEFAULT);
+                let omit = r.chance(1, 2);
+                let mut st = inst.state(r, omit);
+                match r.below(8) {
+                    0 if !st.is_empty() => {
+                        // drop one variable (rejected iff it is used)
+                        let i = r.below(st.len() as u64) as usize;
+                        st.remove(i);
+                    }
+                    1 if !st.is_empty() => {
+                        // move one variable out of its bound by 1 (rejected iff the bound is finite on that side)
+                        let i = r.below(st.len() as u64) as usize;
+                        let v = inst.vars.iter().find(|v| v.id == st[i].0).unwrap();
+                        let (lo, hi) = v.eff();
+                        if let Some(h) = hi {
+                            st[i].1 = q(h + 1, 1);
+                        } else if let Some(l) = lo {
+                            st[i].1 = q(l - 1, 1);
+                        }
+                    }
+                    2 => st.push((77, q(5, 1))), // an id the instance does not define
+                    _ => {}
+                }
+                out.push(ev("evaluate", format!("d-evaluate-{k}"), json!({"inst": inst.json, "st": st_json(&st)})));
+            }
+        }
+        "commute" => {
+            for k in 0..n {
+                let inst = rand_instance(r, &InstOpts { max_deg: 3, ..DEFAULT });
+                let mut st = inst.state(r, false);
+                r.shuffle(&mut st);
+                let cut = r.below(st.len() as u64 + 1) as usize;
+                let s1 = &st[..cut];
+                let s2 = &st[cut..];
+                let cut2 = r.below(s1.len() as u64 + 1) as usize;
+                out.push(ev("commute", format!("d-commute-{k}"),
+                    json!({"inst": inst.json, "s1": st_json(s1), "s2": st_json(s2), "s1a": st_json(&s1[..cut2])})));
+                // the same step as a separately judged history: partial evaluation(s) then evaluation
+                let mut ops = vec![json!({"op":"inst_partial","st":st_json(&s1[..cut2])}), json!({"op":"inst_partial","st":st_json(&s1[cut2..])}),
+                                   json!({"op":"evaluate","st":st_json(s2)})];
+                if r.chance(1, 2) {
+                    ops.remove(0);
+                    ops[0] = json!({"op":"inst_partial","st":st_json(s1)});
+                }
+                out.push(json!({"ev":"seq","case":format!("d-commute-seq-{k}"),"src":"drive","in":{"inst":inst.json,"ops":ops}}));
+            }
+        }
+        "inst_subst" => {
+            for k in 0..n {
+                let inst = rand_instance(r, &InstOpts { with_deps: false, ..DEFAULT });
+                // replace 1..2 used variables by functions of the remaining ones; optionally a second substitution (chain)
+                let mut used = inst.used.clone();
+                r.shuffle(&mut used);
+                let m = (1 + r.below(2) as usize).min(used.len().saturating_sub(1)).max(1).min(used.len());
+                let (rep, rest) = used.split_at(m);
+                let rest: Vec<u64> = rest.to_vec();
+                let mut ops = vec![];
+                if rest.is_empty() {
+                    let repl: Vec<Value> = rep.iter().map(|i| json!([i, {"kind":"constant","c":q(r.range(-2, 2), 1)}])).collect();
+                    ops.push(json!({"op":"inst_subst","repl":repl}));
+                } else {
+                    let gr = FnGen { ids: rest.clone(), coef_den: 1, coef_max: 2, max_terms: 2, max_deg: 1 };
+                    let repl: Vec<Value> = rep.iter().map(|i| json!([i, gr.linear(r)])).collect();
+                    ops.push(json!({"op":"inst_subst","repl":repl}));
+                    if rest.len() >= 2 && r.chance(1, 2) {
+                        // chain: replace one of the remaining variables as well
+                        let gr2 = FnGen { ids: rest[1..].to_vec(), coef_den: 1, coef_max: 2, max_terms: 2, max_deg: 1 };
+                        ops.push(json!({"op":"inst_subst","repl":[[rest[0], gr2.linear(r)]]}));
+                    }
+                }
+                // state over variables that are not replaced (values are unconstrained by bounds of replaced ones)
+                let replaced: Vec<u64> = ops.iter().flat_map(|o| o["repl"].as_array().unwrap().iter().map(|p| p[0].as_u64().unwrap())).collect();
+                let st: Vec<(u64, Value)> = inst.vars.iter().filter(|v| !replaced.contains(&v.id)).map(|v| (v.id, v.value(r))).collect();
+                ops.push(json!({"op":"evaluate","st":st_json(&st)}));
+                out.push(json!({"ev":"seq","case":format!("d-subst-seq-{k}"),"src":"drive","in":{"inst":inst.json,"ops":ops}}));
+            }
+        }
+        "deps_order" => {
+            for k in 0..n {
+                // dependency graphs on <= 5 dependents: chains, diamonds, cycles, dangling references
+                let nd = 2 + r.below(4);
+                let base = [1u64, 2];
+                let dids: Vec<u64> = (0..nd).map(|i| 10 + i).collect();
+                let mut deps = vec![];
+                for (i, d) in dids.iter().enumerate() {
+                    let mut cand: Vec<u64> = base.to_vec();
+                    match r.below(10) {
+                        0 => cand.extend(dids.iter().cloned()),              // anything: cycles / self loops possible
+                        1 => cand.push(99),                                  // may refer to an id without value
+                        _ => cand.extend(dids[..i].iter().cloned()),         // acyclic
+                    }
+                    let gd = FnGen { ids: cand, coef_den: 1, coef_max: 2, max_terms: 2, max_deg: 2 };
+                    deps.push(json!([d, gd.function(r, false)]));
+                }
+                r.shuffle(&mut deps);
+                let mut vars: Vec<Value> = vec![];
+                for id in base.iter().chain(dids.iter()).chain([99u64].iter()) {
+                    vars.push(json!({"id": id, "kind": "continuous", "bound": [], "fixed": [], "name": [], "subs": [], "params": [], "desc": []}));
+                }
+                let inst = json!({"sense":"min","vars":vars,"objective":[{"kind":"linear","terms":[{"id":1,"c":[1,1]}],"constant":[0,1]}],
+                    "constraints":[],"removed":[],"deps":deps,"params":[],"hints":[],"description":[],"parameters":[]});
+                let st = json!([[1, q(r.range(-2, 2), 1)], [2, q(r.range(-2, 2), 1)]]);
+                out.push(ev("deps_order", format!("d-depsorder-{k}"), json!({"inst": inst, "st": st, "tries": 120})));
+            }
+        }
+        "relax_restore" => {
+            for k in 0..n {
+                let inst = rand_instance(r, &InstOpts { max_cons: 5, ..DEFAULT });
+                let mut ops = vec![];
+                let mut cids: Vec<u64> = inst.active.iter().chain(inst.removed.iter()).cloned().collect();
+                cids.push(99);
+                let len = 1 + r.below(8);
+                for _ in 0..len {
+                    let c = *r.pick(&cids);
+                    match r.below(5) {
+                        0 | 1 => {
+                            let rp = if r.chance(1, 2) { json!([["k", "v"]]) } else { json!([]) };
+                            ops.push(json!({"op":"relax","cid":c,"reason":format!("why{}", r.below(2)),"rparams":rp}))
+                        }
+                        2 | 3 => ops.push(json!({"op":"restore","cid":c})),
+                        _ => {
+                            let st = inst.state(r, false);
+                            ops.push(json!({"op":"evaluate","st":st_json(&st)}))
+                        }
+                    }
+                }
+                out.push(json!({"ev":"seq","case":format!("d-relax-seq-{k}"),"src":"drive","in":{"inst":inst.json,"ops":ops}}));
+            }
+        }
+        "penalty" => {
+            for k in 0..n {
+                let inst = rand_instance(r, &DEFAULT);
+                let name = if r.chance(1, 2) { "penalty" } else { "uniform_penalty" };
+                out.push(ev(name, format!("d-{name}-{k}"), json!({"inst": inst.json})));
+            }
+        }
+        "as_min" => {
+            for k in 0..n {
+                let inst = rand_instance(r, &DEFAULT);
+                let st = inst.state(r, false);
+                let ops = vec![json!({"op":"evaluate","st":st_json(&st)}), json!({"op":"as_min"}), json!({"op":"evaluate","st":st_json(&st)}), json!({"op":"as_min"})];
+                out.push(json!({"ev":"seq","case":format!("d-asmin-seq-{k}"),"src":"drive","in":{"inst":inst.json,"ops":ops}}));
+            }
+        }
+        "with_parameters" => {
+            for k in 0..n {
+                // an instance over variables and parameters: ids 1..4 decision variables, 50.. parameters
+                let mut inst = rand_instance(r, &InstOpts { max_deg: 3, with_deps: false, ..DEFAULT });
+                let np = r.below(3) as usize;
+                let pids: Vec<u64> = (0..np).map(|i| 50 + 3 * i as u64).collect();
+                let mut ids = inst.used.clone();
+                ids.extend(pids.iter().cloned());
+                let g = FnGen { ids, coef_den: 2, coef_max: 4, max_terms: 4, max_deg: 3 };
+                inst.json["objective"] = json!([g.function(r, false)]);
+                for c in inst.json["constraints"].as_array_mut().unwrap() {
+                    c["f"] = json!([g.function(r, false)]);
+                }
+                let params: Vec<Value> = pids.iter().map(|p| { let (name, subs, pr, desc) = meta(r, "p"); json!({"id": p, "name": name, "subs": subs, "params": pr, "desc": desc}) }).collect();
+                inst.json["parameters"] = json!(params);
+                let mut pv: Vec<(u64, Value)> = pids.iter().map(|p| (*p, q(r.range(-4, 4), 2))).collect();
+                match r.below(4) {
+                    0 if !pv.is_empty() => { let i = r.below(pv.len() as u64) as usize; pv.remove(i); }
+                    1 => pv.push((90, q(3, 1))), // an extra id unrelated to anything
+                    _ => {}
+                }
+                out.push(ev("with_parameters", format!("d-withparams-{k}"), json!({"pinst": inst.json, "pv": st_json(&pv)})));
+            }
+            for k in 0..n / 4 {
+                let inst = rand_instance(r, &DEFAULT);
+                out.push(ev("to_parametric", format!("d-toparam-{k}"), json!({"inst": inst.json})));
+            }
+        }
+        "log_encode" => {
+            for k in 0..n {
+                let mut inst = rand_instance(r, &InstOpts { with_deps: false, ..DEFAULT });
+                let vid = inst.used[0];
+                let vars = inst.json["vars"].as_array_mut().unwrap();
+                let v = vars.iter_mut().find(|v| v["id"] == vid).unwrap();
+                let big = r.chance(1, 4);
+                let (l2, w) = if big { (r.range(-(1 << 21), 1 << 21), r.range(0, 1 << 20)) } else { (r.range(-40, 40), r.range(0, 600)) };
+                // bounds in halves: lower = l2/2, upper = lower + w (+1/2 sometimes)
+                let lo = q(l2, 2);
+                let hi = q(l2 + 2 * w + r.range(0, 1), 2);
+                match r.below(12) {
+                    0 => { v["kind"] = json!("continuous"); v["bound"] = json!([{"lo": lo, "hi": hi}]); }
+                    1 => { v["kind"] = json!("integer"); v["bound"] = json!([]); }
+                    2 => { v["kind"] = json!("binary"); v["bound"] = json!([{"lo": [0,1], "hi": [1,1]}]); }
+                    3 => { v["kind"] = json!("integer"); v["bound"] = json!([{"lo": [1,2], "hi": [3,4]}]); } // no integer inside
+                    _ => { v["kind"] = json!("integer"); v["bound"] = json!([{"lo": lo, "hi": hi}]); }
+                }
+                let target = if r.chance(1, 12) { 77 } else { vid };
+                out.push(ev("log_encode", format!("d-logenc-{k}"), json!({"inst": inst.json, "vid": target})));
+            }
+        }
+        "slack" => {
+            for k in 0..n {
+                // integer/binary variables with small boxes; rational coefficients with denominators <= 12
+                let den = *r.pick(&[1i64, 1, 1, 2, 3, 4, 6, 12]);
+                let int_only = r.chance(9, 10);
+                let inst = rand_instance(r, &InstOpts { max_deg: 2, int_only, boxed: true, with_deps: false, with_removed: true, max_cons: 3, coef_den: 1 });
+                let mut j = inst.json.clone();
+                let ids: Vec<u64> = inst.used.iter().take(3).cloned().collect();
+                // rewrite constraint functions with the chosen denominator over <= 3 variables
+                fn gcd(a: i64, b: i64) -> i64 { if b == 0 { a.abs() } else { gcd(b, a % b) } }
+                let rc = |r: &mut Rng| -> Value { let p = r.range(-2 * den, 2 * den); let g = gcd(p, den).max(1); json!([p / g, den / g]) };
+                for c in j["constraints"].as_array_mut().unwrap() {
+                    let mut terms = vec![];
+                    for id in &ids { if r.chance(2, 3) { terms.push(json!({"id": id, "c": rc(r)})); } }
+                    let f = if r.chance(1, 3) && ids.len() >= 2 {
+                        json!({"kind":"quadratic","rows":[ids[0]],"columns":[ids[1]],"values":[rc(r)],"linear":[{"kind":"linear","terms":terms,"constant":rc(r)}]})
+                    } else {
+                        json!({"kind":"linear","terms":terms,"constant":rc(r)})
+                    };
+                    c["f"] = json!([f]);
+                    if r.chance(4, 5) { c["eq"] = json!("le"); }
+                }
+                // lattice points of the box of the used variables (all variables get a value)
+                let mut points: Vec<Vec<(u64, i64)>> = vec![vec![]];
+                let mut too_big = false;
+                for v in &inst.vars {
+                    let (lo, hi) = v.eff();
+                    let (lo, hi) = (lo.unwrap_or(0), hi.unwrap_or(0));
+                    if v.kind == "continuous" { points = points.into_iter().map(|mut p| { p.push((v.id, lo)); p }).collect(); continue; }
+                    let mut next = vec![];
+                    for p in &points { for x in lo..=hi { let mut p2 = p.clone(); p2.push((v.id, x)); next.push(p2); } }
+                    points = next;
+                    if points.len() > 400 { too_big = true; break; }
+                }
+                if too_big { continue; }
+                let pts: Vec<Value> = points.iter().map(|p| Value::Array(p.iter().map(|(i, x)| json!([i, [x, 1]])).collect())).collect();
+                let mut cids: Vec<u64> = inst.active.clone();
+                if r.chance(1, 6) || cids.is_empty() { cids.push(99); }
+                if r.chance(1, 8) { cids.extend(inst.removed.iter().cloned()); }
+                let cid = *r.pick(&cids);
+                if r.chance(1, 2) {
+                    let max = *r.pick(&[0u64, 2, 10, 1000, 1000000]);
+                    out.push(ev("slack_convert", format!("d-slackconv-{k}"), json!({"inst": j, "cid": cid, "max": max, "points": pts})));
+                } else {
+                    out.push(ev("slack_add", format!("d-slackadd-{k}"), json!({"inst": j, "cid": cid, "ub": 1 + r.below(4), "points": pts})));
+                }
+            }
+        }
+        "samples" => {
+            for k in 0..n {
+                let inst = rand_instance(r, &DEFAULT);
+                let nstates = 1 + r.below(3) as usize;
+                let omit = r.chance(1, 3);
+                let states: Vec<Vec<(u64, Value)>> = (0..nstates).map(|_| inst.state(r, omit)).collect();
+                let nids = 1 + r.below(8) as usize;
+                let mut sids: Vec<u64> = [0u64, 1, 2, 5, 8, 13, 21, 100, 7, 3].to_vec();
+                r.shuffle(&mut sids);
+                let mut entries: Vec<(usize, Vec<u64>)> = vec![];
+                for sid in &sids[..nids] {
+                    let s = r.below(nstates as u64) as usize;
+                    // same state in one entry, or in a separate entry
+                    if r.chance(1, 2) {
+                        if let Some(e) = entries.iter_mut().find(|e| e.0 == s) { e.1.push(*sid); continue; }
+                    }
+                    entries.push((s, vec![*sid]));
+                }
+                let samples: Vec<Value> = entries.iter().map(|(s, ids)| json!({"state": [st_json(&states[*s])], "ids": ids})).collect();
+                out.push(ev("evaluate_samples", format!("d-samples-{k}"), json!({"inst": inst.json, "samples": samples})));
+            }
+        }
+        "best" => {
+            for k in 0..n {
+                let ns = 1 + r.below(8) as usize;
+                let mut sids: Vec<u64> = [0u64, 1, 2, 5, 8, 13, 21, 100].to_vec();
+                r.shuffle(&mut sids);
+                let sids = &sids[..ns];
+                let objs: Vec<i64> = sids.iter().map(|_| r.range(-2, 2)).collect();
+                let mut groups: std::collections::BTreeMap<i64, Vec<u64>> = Default::default();
+                for (s, o) in sids.iter().zip(&objs) { groups.entry(*o).or_default().push(*s); }
+                let sv: Vec<Value> = groups.iter().map(|(o, ids)| json!({"value": [o, 1], "ids": ids})).collect();
+                let relaxed: Vec<(u64, bool)> = sids.iter().map(|s| (*s, r.chance(1, 2))).collect();
+                let all: Vec<(u64, bool)> = relaxed.iter().map(|(s, b)| (*s, *b && r.chance(2, 3))).collect();
+                let bm = |m: &Vec<(u64, bool)>| { let mut m = m.clone(); m.sort(); Value::Array(m.iter().map(|(s, b)| json!([s, b])).collect()) };
+                let legacy = r.chance(1, 3);
+                let ss = if legacy {
+                    json!({"objectives":[sv],"vars":[],"constraints":[],"feasible":bm(&relaxed),"feasible_relaxed":[],"feasible_unrelaxed":bm(&all),"sense": if r.chance(1,2) {"min"} else {"max"}})
+                } else {
+                    json!({"objectives":[sv],"vars":[],"constraints":[],"feasible":bm(&all),"feasible_relaxed":bm(&relaxed),"feasible_unrelaxed":[],"sense": if r.chance(1,2) {"min"} else {"max"}})
+                };
+                out.push(ev("best", format!("d-best-{k}"), json!({"ss": ss, "via_bytes": r.chance(1, 2)})));
+            }
+        }
+        "pubo" => {
+            for k in 0..n {
+                let nb = if r.chance(1, 40) { 12 } else { 1 + r.below(6) as usize };
+                let ids: Vec<u64> = (0..nb as u64).map(|i| 1 + 2 * i).collect();
+                let g = FnGen { ids: ids.clone(), coef_den: 2, coef_max: 6, max_terms: 8, max_deg: 4 };
+                let mut vars: Vec<Value> = ids.iter().map(|i| json!({"id": i, "kind": "binary", "bound": if r.chance(1,2) { json!([{"lo":[0,1],"hi":[1,1]}]) } else { json!([]) }, "fixed": [], "name": [], "subs": [], "params": [], "desc": []})).collect();
+                let mut sense = "min";
+                let mut cons = json!([]);
+                match r.below(12) {
+                    0 => sense = "max",
+                    1 => cons = json!([{"id": 1, "eq": "eq", "f": [{"kind":"constant","c":[0,1]}], "name": [], "subs": [], "params": [], "desc": []}]),
+                    2 => { vars[0]["kind"] = json!("integer"); }
+                    _ => {}
+                }
+                let deg2 = r.chance(1, 2);
+                let g2 = FnGen { max_deg: 2, ..FnGen { ids: ids.clone(), coef_den: 2, coef_max: 6, max_terms: 8, max_deg: 2 } };
+                let f = if deg2 { g2.function(r, true) } else { g.function(r, true) };
+                let objective = if f["kind"] == "none" && r.chance(1, 2) { json!([]) } else { json!([f]) };
+                let inst = json!({"sense": sense, "vars": vars, "objective": objective, "constraints": cons, "removed": [], "deps": [], "params": [], "hints": [], "description": [], "parameters": []});
+                out.push(ev("pubo", format!("d-pubo-{k}"), json!({"inst": inst})));
+                out.push(ev("qubo", format!("d-qubo-{k}"), json!({"inst": inst})));
+            }
+        }
+        other => panic!("unknown generator group {other}"),
+    }
+    out
 }
